@@ -7,6 +7,7 @@ import (
 	"os"
 	"sort"
 	"strings"
+	gosync "sync"
 
 	"github.com/douban/gobeansdb/cmem"
 	"github.com/douban/gobeansdb/store"
@@ -76,9 +77,21 @@ type Recorder struct {
 	Ops   []RecOp
 	clock int64
 	st    *store.HStore
+	mu    gosync.Mutex // only contended in the free-running -race pass
 }
 
-func (r *Recorder) tick() int64 { r.clock++; return r.clock }
+func (r *Recorder) tick() int64 {
+	r.mu.Lock()
+	defer r.mu.Unlock()
+	r.clock++
+	return r.clock
+}
+
+func (r *Recorder) add(op RecOp) {
+	r.mu.Lock()
+	r.Ops = append(r.Ops, op)
+	r.mu.Unlock()
+}
 
 func (r *Recorder) Set(t int, key, val string) {
 	op := RecOp{T: t, Kind: "set", Key: key, In: val, Call: r.tick()}
@@ -89,7 +102,7 @@ func (r *Recorder) Set(t int, key, val string) {
 		op.Err = err.Error()
 	}
 	op.Ret = r.tick()
-	r.Ops = append(r.Ops, op)
+	r.add(op)
 }
 
 func (r *Recorder) Del(t int, key string) {
@@ -100,7 +113,7 @@ func (r *Recorder) Del(t int, key string) {
 		op.Err = err.Error()
 	}
 	op.Ret = r.tick()
-	r.Ops = append(r.Ops, op)
+	r.add(op)
 }
 
 func (r *Recorder) Get(t int, key string) {
@@ -111,7 +124,7 @@ func (r *Recorder) Get(t int, key string) {
 		op.Err = err.Error()
 	}
 	op.Ret = r.tick()
-	r.Ops = append(r.Ops, op)
+	r.add(op)
 }
 
 func abs32i(v int32) int32 {
@@ -417,4 +430,18 @@ func obsString(ops []RecOp) string {
 		fmt.Fprintf(&sb, "%d:%s:%s:%s>%s/%d/%v/%s@%d-%d;", o.T, o.Kind, o.Key, o.In, o.Out, o.Ver, o.Found, o.Err, o.Call, o.Ret)
 	}
 	return sb.String()
+}
+
+// RacePass runs the scenario bodies free (real goroutines, locks, files, clock)
+// n times each; meant for a worker built with -race. Verdicts of the oracles are ignored:
+// only the race detector's reports matter here.
+func RacePass(scs []*Scenario, n int) (runs int) {
+	for _, sc := range scs {
+		for i := 0; i < n; i++ {
+			vsched.RunFree(func(s *vsched.Sched) { sc.Run(sc, s) })
+			runs++
+		}
+	}
+	os.RemoveAll(fmt.Sprintf("/dev/shm/verif-race-%d", os.Getpid()))
+	return
 }
